@@ -496,16 +496,16 @@ fn content_spec(input: &str) -> IResult<&str, model::DeclarationContent<'_>> {
 ///
 /// [\[47\] children](https://www.w3.org/TR/2008/REC-xml-20081126/#NT-children)
 fn children(input: &str) -> IResult<&str, model::DeclarationContentItem<'_>> {
-    alt((
-        map(
-            tuple((seq, opt(alt((tag("?"), tag("*"), tag("+")))))),
-            |(v, q)| model::DeclarationContentItem::Seq(v, q),
-        ),
-        map(
-            tuple((choice, opt(alt((tag("?"), tag("*"), tag("+")))))),
-            |(v, q)| model::DeclarationContentItem::Choice(v, q),
-        ),
-    ))(input)
+    map(
+        tuple((choice_or_seq, opt(alt((tag("?"), tag("*"), tag("+")))))),
+        |((is_choice, v), q)| {
+            if is_choice {
+                model::DeclarationContentItem::Choice(v, q)
+            } else {
+                model::DeclarationContentItem::Seq(v, q)
+            }
+        },
+    )(input)
 }
 
 /// (Name | choice | seq) ('?' | '*' | '+')?
@@ -515,14 +515,7 @@ fn children(input: &str) -> IResult<&str, model::DeclarationContentItem<'_>> {
 /// [\[18\] cp](https://www.w3.org/TR/2009/REC-xml-names-20091208/#NT-cp)
 fn cp(input: &str) -> IResult<&str, model::DeclarationContentItem<'_>> {
     alt((
-        map(
-            tuple((seq, opt(alt((tag("?"), tag("*"), tag("+")))))),
-            |(v, q)| model::DeclarationContentItem::Seq(v, q),
-        ),
-        map(
-            tuple((choice, opt(alt((tag("?"), tag("*"), tag("+")))))),
-            |(v, q)| model::DeclarationContentItem::Choice(v, q),
-        ),
+        children,
         map(
             tuple((qname, opt(alt((tag("?"), tag("*"), tag("+")))))),
             |(v, q)| model::DeclarationContentItem::Name(v, q),
@@ -530,42 +523,36 @@ fn cp(input: &str) -> IResult<&str, model::DeclarationContentItem<'_>> {
     ))(input)
 }
 
-/// '(' S? cp ( S? '|' S? cp )+ S? ')'
+/// '(' S? cp ( S? '|' S? cp )+ S? ')' | '(' S? cp ( S? ',' S? cp )* S? ')'
+///
+/// The common prefix `'(' S? cp` of choice and seq is parsed once; the separator that follows
+/// decides which of the two it is (the flag is true for a choice).
 ///
 /// [\[49\] choice](https://www.w3.org/TR/2008/REC-xml-20081126/#NT-choice)
-fn choice(input: &str) -> IResult<&str, Vec<model::DeclarationContentItem<'_>>> {
-    map(
-        delimited(
-            tuple((tag("("), multispace0)),
-            tuple((
-                cp,
-                many1(preceded(tuple((multispace0, tag("|"), multispace0)), cp)),
-            )),
-            tuple((multispace0, tag(")"))),
-        ),
-        |(f, mut r)| {
-            r.insert(0, f);
-            r
-        },
-    )(input)
-}
-
-/// '(' S? cp ( S? ',' S? cp )* S? ')'
 ///
 /// [\[50\] seq](https://www.w3.org/TR/2008/REC-xml-20081126/#NT-seq)
-fn seq(input: &str) -> IResult<&str, Vec<model::DeclarationContentItem<'_>>> {
+fn choice_or_seq(input: &str) -> IResult<&str, (bool, Vec<model::DeclarationContentItem<'_>>)> {
     map(
         delimited(
             tuple((tag("("), multispace0)),
             tuple((
                 cp,
-                many0(preceded(tuple((multispace0, tag(","), multispace0)), cp)),
+                alt((
+                    map(
+                        many1(preceded(tuple((multispace0, tag("|"), multispace0)), cp)),
+                        |r| (true, r),
+                    ),
+                    map(
+                        many0(preceded(tuple((multispace0, tag(","), multispace0)), cp)),
+                        |r| (false, r),
+                    ),
+                )),
             )),
             tuple((multispace0, tag(")"))),
         ),
-        |(f, mut r)| {
+        |(f, (is_choice, mut r))| {
             r.insert(0, f);
-            r
+            (is_choice, r)
         },
     )(input)
 }
